@@ -17,6 +17,8 @@ from ..programs import PROGRAMS as _SHARED
 PROGRAMS = list(_SHARED) + [  # scopes whose comprehensions iterate over calls / contain lambdas and walruses (search(scope=True))
     "def f(n):\n    return [a for a in range(n)]\nz = [(lambda: (y := 1)) for a in xs]",
     "class K:\n    v = {k: w for k, w in d.items() if g(k)}\n    def m(self): return (u for u in self.v)",
+    # the one node property a pattern reads from the source text: is a handler an `except*` handler (layouts that separate the star)
+    "try:\n    a\nexcept \\\n  * E:\n    b\nexcept\\\n*F as g: c\ntry: pass\nexcept E: pass\nexcept (\n  F): pass\ntry: pass\nexcept  *  G: pass\nexcept*H: pass",
 ]
 
 ID = 'C17'
@@ -306,6 +308,15 @@ def run_struct(fst, M, pi, res):
         ps = O.path_str(path)
         res.evals += 1
         res.state(pi, ps)
+        if isinstance(node, ast.ExceptHandler):  # `_star` is answered from the source: it has to agree with the class of the statement
+            star = isinstance(O.get_path(pure, path[:-1]), ast.TryStar)
+            try:
+                got = (bool(f.match(M.MExceptHandler(_star=True))), bool(f.match(M.MExceptHandler(_star=False))), bool(f.is_except_star()))
+            except Exception as e:  # noqa: BLE001
+                got = repr(e)
+            if got != (star, not star, star):
+                res.fail(cidp + ps + '/_star', 'except-star-pattern-disagrees-with-statement-class',
+                         f'src={src!r} node={ps} (_star=True, _star=False, is_except_star())={got} TryStar={star}', {}, rep)
         pat_ast = copy.deepcopy(node)
         try:
             m1 = f.match(pat_ast)
